@@ -13,7 +13,8 @@ import (
 // C08 — a rejected Reconfigure leaves the middleware exactly as it was (uses C09's closure as start states).
 
 var (
-	smA       = CfgLit{Origins: []string{"https://a.example", "https://*.a.example"}, Methods: []string{"PUT", "PATCH"}, RequestHeaders: []string{"X-A", "X-B"}, ResponseHeaders: []string{"X-R"}, MaxAge: 30}
+	smA = CfgLit{Origins: []string{"https://a.example", "https://*.a.example", "https://xn--bcher-kva.example:49152", "app+v1.0://host-1.internal:10000", "https://*.example.co.uk:*"}, Methods: []string{"PUT", "PATCH", "M-SEARCH", "a*b!c"},
+		RequestHeaders: []string{"X-A", "X-B", "X-Api_Key.v2", "x-trace~id", "Content-Type"}, ResponseHeaders: []string{"X-R", "ETag", "x_odd.name~1"}, MaxAge: 600, Status: 201, TolPSL: true}
 	smB       = CfgLit{Origins: []string{"http://b.example:*"}, Credentialed: true, PNA: true, TolInsecure: true, Methods: []string{"DELETE"}, RequestHeaders: []string{"X-C", "Authorization"}, ResponseHeaders: []string{"X-S", "X-T"}, MaxAge: -1, Status: 200}
 	smC       = CfgLit{Origins: []string{"*"}, Methods: []string{"*"}, RequestHeaders: []string{"*"}, ResponseHeaders: []string{"*"}}
 	smInvalid = CfgLit{Origins: []string{"https://c.example", "https://c.example/path"}, Methods: []string{"QUERY"}, MaxAge: 10}
@@ -107,6 +108,19 @@ func smEnsure() { smOnce.Do(smPrepare) }
 
 func smPrepare() {
 	smSuite = suiteFor(smA, smB, smC)
+	// the state-machine checks observe the whole suite after every step of every history: keep it to a few
+	// hundred requests (deterministic stride; the first block with the non-CORS probes is kept whole)
+	const maxSuite = 360
+	if len(smSuite) > maxSuite {
+		stride := (len(smSuite) + maxSuite - 1) / maxSuite
+		var thin []vlib.Req
+		for i, r := range smSuite {
+			if i < 12 || i%stride == 0 {
+				thin = append(thin, r)
+			}
+		}
+		smSuite = thin
+	}
 	for _, cfg := range []string{"", "A", "B", "C"} {
 		for _, d := range []bool{false, true} {
 			if cfg == "" && d {
@@ -226,6 +240,34 @@ func c09Diag(name string, r vlib.Req) *vlib.Failure {
 	}
 	if why != "" {
 		return vlib.Failf("configuration %s: debug mode changes the response to %s: %s\n off: %s\n on:  %s", name, r, why, offSig, onSig)
+	}
+	// "partial headers": the debug-mode answer to a preflight that fails at the method or header step carries
+	// what the steps before it established. The counterpart request (same Origin and ACRPN, safelisted method, no
+	// ACRH) passes those steps too; if it succeeds, its Allow-Origin / -Credentials / -Private-Network values must
+	// all be present on the debug-mode answer to the failing request. Likewise for a failure at the PNA step with
+	// the counterpart that does not ask for private-network access.
+	if a.Status/100 != 2 {
+		for _, drop := range []string{"method+headers", "pna"} {
+			hdr := map[string][]string{}
+			for k, v := range r.Hdr {
+				hdr[k] = v
+			}
+			if drop == "pna" {
+				delete(hdr, "Access-Control-Request-Private-Network")
+			}
+			hdr["Access-Control-Request-Method"] = []string{"GET"}
+			delete(hdr, "Access-Control-Request-Headers")
+			cp := vlib.Serve(mOn.Wrap(innerOn), &innerOn.Calls, vlib.Req{Method: "OPTIONS", Hdr: hdr}, nil)
+			if cp.Status/100 != 2 || len(cp.Hdr["Access-Control-Allow-Origin"]) == 0 {
+				continue // the counterpart fails too: an earlier step is at fault
+			}
+			for _, hk := range []string{"Access-Control-Allow-Origin", "Access-Control-Allow-Credentials", "Access-Control-Allow-Private-Network"} {
+				if want, ok := cp.Hdr[hk]; ok && fmt.Sprint(b.Hdr[hk]) != fmt.Sprint(want) {
+					return vlib.Failf("configuration %s, debug on: the failing preflight %s is answered without %s=%q although the steps that establish it passed (counterpart without %s succeeds with it)\n on: %s", name, r, hk, want, drop, onSig)
+				}
+			}
+			break
+		}
 	}
 	return nil
 }
